@@ -261,6 +261,189 @@ ENSURES(RET == 0 IMPLIES DER_RD_SAME(in, inlen))
 ENSURES(RET == 1 IMPLIES DER_RD_ADV(in, inlen) && DER_CONSUMED(inlen) == 2)
 ;
 
+/* ------------------------------------------------------------------ OBJECT IDENTIFIER */
+#ifdef VERIF_CBMC
+#define OID_B128_SZ(a) ((size_t)1 + (size_t)((a) >= 128u) + (size_t)((a) >= 16384u) + (size_t)((a) >= 2097152u) + (size_t)((a) >= 268435456u))
+#endif
+static void asn1_oid_node_to_base128(uint32_t a, uint8_t **out, size_t *outlen)
+REQUIRES(W_OK(outlen, sizeof(*outlen)) && W_OK(out, sizeof(*out)) && (*out == NULL || W_OK(*out, OID_B128_SZ(a))))
+ASSIGNS(*outlen, *out; *out != NULL: OBJ_UPTO(*out, OID_B128_SZ(a)))
+ENSURES(*outlen == OLD(*outlen) + OID_B128_SZ(a))
+ENSURES(OLD(*out) == NULL ? *out == NULL : (PTR_IN(OLD(*out), *out, OLD(*out) + OID_B128_SZ(a)) && *out == OLD(*out) + OID_B128_SZ(a)))
+;
+
+/* one base-128 arc: at most 5 octets, value fits 32 bits, at least one octet consumed */
+static int asn1_oid_node_from_base128(uint32_t *a, const uint8_t **in, size_t *inlen)
+REQUIRES(W_OK(a, sizeof(*a)) && W_OK(in, sizeof(*in)) && W_OK(inlen, sizeof(*inlen)) && *in != NULL && R_OK(*in, *inlen))
+ASSIGNS(*a, *in, *inlen)
+ENSURES(RET == 1 || RET == -1)
+ENSURES(RET == 1 IMPLIES DER_RD_ADV(in, inlen) && DER_CONSUMED(inlen) >= 1 && DER_CONSUMED(inlen) <= 5)
+;
+
+int asn1_object_identifier_to_octets(const uint32_t *nodes, size_t nodes_cnt, uint8_t *out, size_t *outlen)
+REQUIRES(W_OK(outlen, sizeof(*outlen)) && nodes_cnt <= 64 && (nodes == NULL || R_OK(nodes, nodes_cnt * sizeof(uint32_t))))
+/* capacity taken from the only in-library caller: uint8_t octets[ASN1_OID_MAX_OCTETS] */
+REQUIRES(out == NULL || W_OK(out, ASN1_OID_MAX_OCTETS))
+ASSIGNS(*outlen; out != NULL: OBJ_UPTO(out, ASN1_OID_MAX_OCTETS))
+ENSURES(RET == 1 || RET == -1)
+ENSURES((RET == 1) == (nodes != NULL && nodes_cnt >= ASN1_OID_MIN_NODES && nodes_cnt <= ASN1_OID_MAX_NODES))
+ENSURES(RET == 1 IMPLIES *outlen >= 1 && *outlen <= ASN1_OID_MAX_OCTETS)
+;
+
+/* C06: never more than ASN1_OID_MAX_NODES arcs are written to nodes[]; C14: count in [2, 32] */
+int asn1_object_identifier_from_octets(uint32_t *nodes, size_t *nodes_cnt, const uint8_t *in, size_t inlen)
+REQUIRES(W_OK(nodes_cnt, sizeof(*nodes_cnt)) && (nodes == NULL || W_OK(nodes, ASN1_OID_MAX_NODES * sizeof(uint32_t))))
+REQUIRES(in != NULL && R_OK(in, inlen) && inlen <= (size_t)INT_MAX)
+ASSIGNS(*nodes_cnt; nodes != NULL: OBJ_UPTO((uint8_t *)nodes, ASN1_OID_MAX_NODES * sizeof(uint32_t)))
+ENSURES(RET == 1 || RET == -1)
+ENSURES(RET == 1 IMPLIES *nodes_cnt >= ASN1_OID_MIN_NODES && *nodes_cnt <= ASN1_OID_MAX_NODES)
+ENSURES(inlen == 0 IMPLIES RET == -1)
+;
+
+int asn1_object_identifier_to_der_ex(int tag, const uint32_t *nodes, size_t nodes_cnt, uint8_t **out, size_t *outlen)
+REQUIRES(nodes_cnt <= 64 && (nodes == NULL || R_OK(nodes, nodes_cnt * sizeof(uint32_t))) && DER_WR_REQ(out, outlen, 2 + ASN1_OID_MAX_OCTETS))
+ASSIGNS(*outlen; out != NULL: *out; out != NULL && *out != NULL: OBJ_UPTO(*out, 2 + ASN1_OID_MAX_OCTETS))
+ENSURES(RET == 1 || RET == 0 || RET == -1)
+ENSURES(RET == 1 IMPLIES *outlen - OLD(*outlen) >= 3 && *outlen - OLD(*outlen) <= 2 + ASN1_OID_MAX_OCTETS)
+ENSURES(RET == 1 IMPLIES (out == NULL || (OLD(*out) == NULL ? *out == NULL :
+	(PTR_IN(OLD(*out), *out, OLD(*out) + 2 + ASN1_OID_MAX_OCTETS) && *out == OLD(*out) + (*outlen - OLD(*outlen))))))
+ENSURES(RET != 1 IMPLIES DER_WR_SAME(out, outlen))
+;
+
+int asn1_object_identifier_from_der_ex(int tag, uint32_t *nodes, size_t *nodes_cnt, const uint8_t **in, size_t *inlen)
+REQUIRES(W_OK(nodes_cnt, sizeof(*nodes_cnt)) && W_OK(nodes, ASN1_OID_MAX_NODES * sizeof(uint32_t)) && DER_RD_REQ(in, inlen))
+ASSIGNS(*nodes_cnt, OBJ_UPTO((uint8_t *)nodes, ASN1_OID_MAX_NODES * sizeof(uint32_t)), *in, *inlen)
+ENSURES(RET == 1 || RET == 0 || RET == -1)
+ENSURES(RET == 0 IMPLIES DER_RD_SAME(in, inlen) && *nodes_cnt == 0)
+ENSURES(RET == 1 IMPLIES DER_RD_ADV(in, inlen) && DER_CONSUMED(inlen) >= 3
+	&& *nodes_cnt >= ASN1_OID_MIN_NODES && *nodes_cnt <= ASN1_OID_MAX_NODES)
+;
+
+int asn1_oid_info_from_der_ex(const ASN1_OID_INFO **info, uint32_t *nodes, size_t *nodes_cnt,
+	const ASN1_OID_INFO *infos, size_t infos_cnt, const uint8_t **in, size_t *inlen)
+REQUIRES(W_OK(info, sizeof(*info)) && W_OK(nodes_cnt, sizeof(*nodes_cnt)) && W_OK(nodes, ASN1_OID_MAX_NODES * sizeof(uint32_t)) && DER_RD_REQ(in, inlen))
+REQUIRES(infos_cnt <= 64 && R_OK(infos, infos_cnt * sizeof(ASN1_OID_INFO)))
+ASSIGNS(*info, *nodes_cnt, OBJ_UPTO((uint8_t *)nodes, ASN1_OID_MAX_NODES * sizeof(uint32_t)), *in, *inlen)
+ENSURES(RET == 1 || RET == 0 || RET == -1)
+ENSURES(RET == 0 IMPLIES DER_RD_SAME(in, inlen) && *info == NULL)
+ENSURES(RET == 1 IMPLIES DER_RD_ADV(in, inlen) && DER_CONSUMED(inlen) >= 3
+	&& *nodes_cnt >= ASN1_OID_MIN_NODES && *nodes_cnt <= ASN1_OID_MAX_NODES)
+/* the entry returned is an element of the caller's table (or NULL: well-formed but unknown OID) */
+ENSURES(RET == 1 IMPLIES (*info == NULL || (PTR_IN(infos, *info, infos + infos_cnt) && *info < infos + infos_cnt)))
+;
+
+int asn1_oid_info_from_der(const ASN1_OID_INFO **info, const ASN1_OID_INFO *infos, size_t count, const uint8_t **in, size_t *inlen)
+REQUIRES(W_OK(info, sizeof(*info)) && DER_RD_REQ(in, inlen) && count <= 64 && R_OK(infos, count * sizeof(ASN1_OID_INFO)))
+ASSIGNS(*info, *in, *inlen)
+ENSURES(RET == 1 || RET == 0 || RET == -1)
+ENSURES(RET == 0 IMPLIES DER_RD_SAME(in, inlen) && *info == NULL)
+ENSURES(RET == 1 IMPLIES DER_RD_ADV(in, inlen) && DER_CONSUMED(inlen) >= 3
+	&& PTR_IN(infos, *info, infos + count) && *info < infos + count)
+;
+
+/* ------------------------------------------------------------------ character strings */
+#ifdef VERIF_CBMC
+size_t verif_gk;   /* ghost index (P-GIDX); declared extern by the guarded gmssl/verif.h, never assigned by code */
+#define G_sk verif_gk
+/* RFC 3629 structure of the UTF-8 sequence starting at p with n bytes available (lead byte class + 10xxxxxx continuations) */
+#define UTF8_LEN(b)  (((b) & 0x80) == 0x00 ? 1 : (((b) & 0xe0) == 0xc0 ? 2 : (((b) & 0xf0) == 0xe0 ? 3 : (((b) & 0xf8) == 0xf0 ? 4 : 0))))
+#define UTF8_CONT(b) (((b) & 0xc0) == 0x80)
+#define IS_PRINTABLE(c) (((c) >= '0' && (c) <= '9') || ((c) >= 'a' && (c) <= 'z') || ((c) >= 'A' && (c) <= 'Z') || (c) == ' ' || (c) == '\'' \
+	|| (c) == '(' || (c) == ')' || (c) == '+' || (c) == ',' || (c) == '-' || (c) == '.' || (c) == '/' || (c) == ':' || (c) == '=' || (c) == '?')
+#endif
+/* one UTF-8 character: accepted iff the lead byte announces 1..4 bytes, they are available, and every
+   following byte is a continuation byte 10xxxxxx (C14: "every valid UTF-8 string") */
+static int asn1_utf8char_from_bytes(uint32_t *c, const uint8_t **pin, size_t *pinlen)
+REQUIRES(W_OK(c, sizeof(*c)) && W_OK(pin, sizeof(*pin)) && W_OK(pinlen, sizeof(*pinlen)) && R_OK(*pin, *pinlen))
+ASSIGNS(*c, *pin, *pinlen)
+ENSURES(RET == 1 || RET == 0 || RET == -1)
+ENSURES(RET == 0 IMPLIES OLD(*pinlen) == 0)
+ENSURES(RET != 1 IMPLIES DER_RD_SAME(pin, pinlen))
+ENSURES(RET == 1 IMPLIES DER_RD_ADV(pin, pinlen) && DER_CONSUMED(pinlen) >= 1 && DER_CONSUMED(pinlen) <= 4)
+ENSURES(RET == 1 IMPLIES DER_CONSUMED(pinlen) == UTF8_LEN(OLD(*pin)[0]))
+ENSURES(RET == 1 IMPLIES (DER_CONSUMED(pinlen) < 2 || UTF8_CONT(OLD(*pin)[1])) && (DER_CONSUMED(pinlen) < 3 || UTF8_CONT(OLD(*pin)[2]))
+	&& (DER_CONSUMED(pinlen) < 4 || UTF8_CONT(OLD(*pin)[3])))
+/* completeness: a structurally valid sequence is accepted */
+ENSURES((OLD(*pinlen) >= 1 && UTF8_LEN(OLD(*pin)[0]) >= 1 && OLD(*pinlen) >= (size_t)UTF8_LEN(OLD(*pin)[0])
+	&& (UTF8_LEN(OLD(*pin)[0]) < 2 || UTF8_CONT(OLD(*pin)[1])) && (UTF8_LEN(OLD(*pin)[0]) < 3 || UTF8_CONT(OLD(*pin)[2]))
+	&& (UTF8_LEN(OLD(*pin)[0]) < 4 || UTF8_CONT(OLD(*pin)[3]))) IMPLIES RET == 1)
+;
+
+int asn1_string_is_utf8_string(const char *a, size_t alen)
+REQUIRES(alen <= (size_t)INT_MAX && (a == NULL || R_OK(a, alen)))
+ASSIGNS()
+ENSURES(RET == 1 || RET == 0)
+ENSURES(RET == 1 IMPLIES a != NULL && alen > 0)
+;
+
+int asn1_string_is_printable_string(const char *a, size_t alen)
+REQUIRES(alen <= (size_t)INT_MAX && R_OK(a, alen))
+ASSIGNS()
+ENSURES(RET == 1 || RET == 0)
+#ifdef ASN1_STRING_CONTENT_POST   /* only where the function is enforced: as an assumed clause it blew the solver up (measured) */
+ENSURES((RET == 1 && G_sk < alen) IMPLIES IS_PRINTABLE(a[G_sk]))
+#endif
+;
+
+int asn1_string_is_ia5_string(const char *a, size_t alen)
+REQUIRES(alen <= (size_t)INT_MAX && R_OK(a, alen))
+ASSIGNS()
+ENSURES(RET == 1 || RET == 0)
+ENSURES((RET == 1 && G_sk < alen) IMPLIES (a[G_sk] >= 0))
+;
+
+#define STRING_FROM_DER_CONTRACT(fn) \
+int fn(int tag, const char **a, size_t *alen, const uint8_t **in, size_t *inlen) \
+REQUIRES(W_OK(a, sizeof(*a)) && W_OK(alen, sizeof(*alen)) && DER_RD_REQ(in, inlen)) \
+ASSIGNS(*a, *alen, *in, *inlen) \
+ENSURES(RET == 1 || RET == 0 || RET == -1) \
+ENSURES(RET == 0 IMPLIES DER_RD_SAME(in, inlen) && *a == NULL && *alen == 0) \
+ENSURES(RET == 1 IMPLIES DER_RD_ADV(in, inlen) && *alen > 0 && *alen <= DER_CONSUMED(inlen) && DER_CONSUMED(inlen) == DER_TLV_SZ(*alen) \
+	&& DER_SLICE(*(const uint8_t **)a, in, inlen, DER_CONSUMED(inlen) - *alen))
+STRING_FROM_DER_CONTRACT(asn1_utf8_string_from_der_ex);
+STRING_FROM_DER_CONTRACT(asn1_printable_string_from_der_ex);
+STRING_FROM_DER_CONTRACT(asn1_ia5_string_from_der_ex);
+
+/* ------------------------------------------------------------------ SEQUENCE OF INTEGER, element access */
+/* C06: never more than max_nums values are stored */
+int asn1_sequence_of_int_from_der(int *nums, size_t *nums_cnt, size_t max_nums, const uint8_t **in, size_t *inlen)
+REQUIRES(max_nums <= 1024 && W_OK(nums_cnt, sizeof(*nums_cnt)) && W_OK(nums, max_nums * sizeof(int)) && DER_RD_REQ(in, inlen))
+ASSIGNS(*nums_cnt, OBJ_UPTO((uint8_t *)nums, max_nums * sizeof(int)), *in, *inlen)
+ENSURES(RET == 1 || RET == 0 || RET == -1)
+ENSURES(RET == 0 IMPLIES DER_RD_SAME(in, inlen))
+ENSURES(RET == 1 IMPLIES DER_RD_ADV(in, inlen) && *nums_cnt <= max_nums)
+;
+
+int asn1_types_get_count(const uint8_t *d, size_t dlen, int tag, size_t *cnt)
+REQUIRES(dlen <= (size_t)INT_MAX && d != NULL && R_OK(d, dlen) && W_OK(cnt, sizeof(*cnt)))
+ASSIGNS(*cnt)
+ENSURES(RET == 1 || RET == -1)
+ENSURES(RET == 1 IMPLIES *cnt <= dlen / 2)
+;
+
+int asn1_types_get_item_by_index(const uint8_t *d, size_t dlen, int tag, int index, const uint8_t **item_d, size_t *item_dlen)
+REQUIRES(dlen <= (size_t)INT_MAX && d != NULL && R_OK(d, dlen) && W_OK(item_d, sizeof(*item_d)) && W_OK(item_dlen, sizeof(*item_dlen)))
+ASSIGNS(*item_d, *item_dlen)
+ENSURES(RET == 1 || RET == -1)
+/* whatever slice is returned lies inside [d, d+dlen) */
+ENSURES(RET == 1 IMPLIES *item_dlen <= dlen && PTR_IN(d, *item_d, d + dlen) && *item_d + *item_dlen <= d + dlen)
+;
+
+/* C06: a diagnostic name lookup never indexes outside its table: result is NULL or a string constant */
+const char *asn1_tag_name(int tag)
+REQUIRES(1)
+ASSIGNS()
+ENSURES(1)
+;
+
+/* diagnostics printer reached from asn1_oid_info_from_der on the unknown-OID path */
+int asn1_object_identifier_print(FILE *fp, int format, int indent, const char *label, const char *name,
+	const uint32_t *nodes, size_t nodes_cnt)
+REQUIRES(nodes == NULL || (nodes_cnt >= 1 && nodes_cnt <= ASN1_OID_MAX_NODES && R_OK(nodes, nodes_cnt * sizeof(uint32_t))))
+ASSIGNS()
+ENSURES(RET == 1)
+;
+
 /* ------------------------------------------------------------------ small predicates */
 int asn1_length_is_zero(size_t len)
 ASSIGNS()
